@@ -102,8 +102,8 @@ def check_property_file(pid):
     for line in o.splitlines():
         if line.startswith("Closed under the global context"):
             closed += 1
-        m = re.match(r"^([A-Za-z_][\w.]*)\s*:", line)
-        if m and not line.startswith(" "):
+        m = re.match(r"^([A-Za-z_]\w*(?:\.[\w']+)+)\b", line)
+        if m:
             axioms.add(m.group(1))
     return ok, theorems, sorted(axioms), closed, log
 
